@@ -34,7 +34,7 @@ class C12(BaseCheck):
   ASSUMPTIONS = ('bytes are attributed to calls through the frames the server decodes (cid in the argument) '
                  'plus a scan of undecoded trailing bytes for the call id',)
   QUICK_CASES = 1440
-  THOROUGH_CASES = 9000
+  THOROUGH_CASES = 60000
   QUICK_WALL = 50
   THOROUGH_WALL = 420
   MIN_DISTINCT = 10
